@@ -165,6 +165,20 @@ def get_encoding_mode() -> Literal["wide", "narrow", "utf8"]:
     return str_util.get_byte_encoding()
 
 
+def _replace_keep_width(exc: UnicodeError) -> tuple[str, int]:
+    """Codec error handler: one "?" per screen column of the text that can not be encoded.
+
+    Unlike "replace" it keeps the width that the text layout has calculated for the `str`:
+    nothing for a zero-width character, "??" for a double-width one.
+    """
+    if not isinstance(exc, UnicodeEncodeError):
+        raise exc
+    return "?" * str_util.calc_width(exc.object, exc.start, exc.end), exc.end
+
+
+codecs.register_error("urwid_replace", _replace_keep_width)
+
+
 def apply_target_encoding(s: str | bytes) -> tuple[bytes, list[tuple[Literal["U", "0"] | None, int]]]:
     """
     Return (encoded byte string, character set rle).
@@ -178,7 +192,7 @@ def apply_target_encoding(s: str | bytes) -> tuple[bytes, list[tuple[Literal["U"
 
     if isinstance(s, str):
         s = s.replace(escape.SI + escape.SO, "")  # remove redundant shifts
-        s = codecs.encode(s, _target_encoding, "replace")
+        s = codecs.encode(s, _target_encoding, "urwid_replace")
 
     if not isinstance(s, bytes):
         raise TypeError(s)
